@@ -77,6 +77,10 @@ def transOracle (op : String) (c : Ctx) (x y : Dec) (o : Out) : List (String × 
           else []
         else []
     | _ => []
+  -- Exp gives up (reports overflow / underflow) for |x| ≥ 23·1000 without looking at the exponent range:
+  -- DESIGN.md finding F5; such misreports carry their own tag
+  let expLarge : Bool := op == "exp" && x.form == .finite && (if x.exp ≥ 0 then decide (x.coeff * 10 ^ x.exp.toNat > 22977) else decide (x.coeff > 22977 * 10 ^ (-x.exp).toNat))
+  let rangeTag := if expLarge then "exp-large-argument: " else ""
   let accuracy : List (String × String) :=
     match transEnclosure op c x y with
     | none => []
@@ -85,8 +89,8 @@ def transOracle (op : String) (c : Ctx) (x y : Dec) (o : Out) : List (String × 
       | .finite =>
         if o.d.coeff == 0 then
           -- a zero result: the exact value must really be below the subnormal range (or be zero: ln 1)
-          if enc.lo.sgn > 0 && enc.lo.adj > c.emin then [("C12", "underflow to zero but the exact value is in range")]
-          else if enc.hi.sgn < 0 && enc.hi.adj > c.emin then [("C12", "underflow to zero but the exact value is in range")] else []
+          if enc.lo.sgn > 0 && enc.lo.adj > c.emin then [("C12", rangeTag ++ "underflow to zero but the exact value is in range")]
+          else if enc.hi.sgn < 0 && enc.hi.adj > c.emin then [("C12", rangeTag ++ "underflow to zero but the exact value is in range")] else []
         else
           -- magnitude comparison; Pow's sign: negative base with odd integer exponent
           let mag : BF := ⟨o.d.coeff, o.d.exp⟩
@@ -112,7 +116,7 @@ def transOracle (op : String) (c : Ctx) (x y : Dec) (o : Out) : List (String × 
         -- (a logarithm can overflow too: log10(1E-998) = -998 does not fit MaxExponent 1)
         let absHi : BF := if enc.hi.sgn ≥ 0 && enc.lo.sgn ≥ 0 then enc.hi
                           else if enc.hi.sgn ≤ 0 then enc.lo.neg else BF.maxB enc.hi enc.lo.neg
-        if absHi.sgn > 0 && absHi.adj < c.emax then [("C12", "overflow to infinity but the exact value is in range")] else []
+        if absHi.sgn > 0 && absHi.adj < c.emax then [("C12", rangeTag ++ "overflow to infinity but the exact value is in range")] else []
       | _ => [("C12", "NaN result for operands in the function's domain")]
   exactChecks ++ accuracy
 
